@@ -178,6 +178,8 @@ def run(rep, build, tier, seed):
     corr = lx.explore(rep, cases, judge, stats)
     rep.cov["input_distribution"] = {"cases": len(cases), "exit_status": {str(k): v for k, v in stats["rc"].items()},
                                      "languages": {L: sum(1 for c in cases if c.lang == L) for L in sorted(set(c.lang for c in cases))}}
+    from .. import listops as _lo
+    rep.cov["input_distribution"]["list_calls_judged_against_the_contract"] = dict(_lo.CALL_STATS)
     rep.sample({"config_head": (cases[1].cfg_text or "")[:200], "input_head": cases[1].data[:200].decode("latin1")})
     return rc.finish(rep, build, "C03", corr, "correspondence Model/Render.v <-> output.cpp (emitted code points)",
                      "Theorems of Properties_C03.v re-checked by make; %d runs: comment and literal sequences of input vs output (LexC for the C family, uncrustify's "
